@@ -56,6 +56,14 @@ Theorem C08_single_attribute_partial :
 Proof. exact single_roundtrip. Qed.
 Print Assumptions C08_single_attribute_partial.
 
+(* ... the default being the one the attribute declares (defaultValueLiteral over default_value over the type's) *)
+Theorem C08_single_attribute_declared_default_partial :
+  forall (sd : bool) (literal explicit type_default v : ostr),
+  let d := effective_default literal explicit type_default in
+  decode_single d (encode_single sd d v) = v.
+Proof. exact single_roundtrip_declared. Qed.
+Print Assumptions C08_single_attribute_declared_default_partial.
+
 (* reference lists: fragments that hold no blank and no '#' (what stays inside the resource) come
    back, in order, duplicates included, whatever prefixes are registered *)
 Theorem C08_reference_list_partial :
